@@ -21,6 +21,7 @@ func init() {
 		func(t *vcTrial) { vcRunC15(t, []string{"listener-create-tcp", "listener-convert-unix", "listener-twice"}, 1, true) },
 		func(t *vcTrial) { vcRunC15(t, []string{"server-shutdown", "server-user-close"}, 1, false) },
 		func(t *vcTrial) { vcRunC15(t, []string{"dial-refused", "dial-timeout", "dial-ok", "fdconn", "detach", "accept-peerclose"}, 2, true) },
+		func(t *vcTrial) { vcRunDialStorm(t, "C15", 240000, 8) }, // the self-connect redial path of failed dials
 		func(t *vcTrial) { vcRunC15(t, []string{"fault-dial", "fault-accept", "fault-io", "fault-poller", "fault-fdconn", "fault-dial-unix", "fault-poller", "fault-dial"}, 1, true) },
 	}
 }
